@@ -17,6 +17,7 @@ const (
 	clsEmbedDepth = "json-embedded-depth-dominance"
 	clsUniFold    = "json-unicode-fold-field-match"
 	clsStrNumber  = "json-string-option-on-number-type"
+	clsStrUnmarsh = "json-string-option-on-unmarshaler-type"
 )
 
 func avoidWhileKnown() []string {
@@ -32,6 +33,9 @@ func avoidWhileKnown() []string {
 	}
 	if evid.KnownActive(clsStrNumber) {
 		a = append(a, "string-on-number")
+	}
+	if evid.KnownActive(clsStrUnmarsh) {
+		a = append(a, "string-on-unmarshaler")
 	}
 	return a
 }
@@ -139,6 +143,29 @@ func hasFoldName(t reflect.Type, seen map[reflect.Type]bool) bool {
 	return false
 }
 
+// hasStringOnUnmarshaler: a field of bool / string / numeric kind with unmarshal methods carrying the ",string" option.
+func hasStringOnUnmarshaler(t reflect.Type, seen map[reflect.Type]bool) bool {
+	if seen[t] {
+		return false
+	}
+	seen[t] = true
+	switch t.Kind() {
+	case reflect.Ptr, reflect.Slice, reflect.Array, reflect.Map:
+		return hasStringOnUnmarshaler(t.Elem(), seen)
+	case reflect.Struct:
+		for i := 0; i < t.NumField(); i++ {
+			f := t.Field(i)
+			if strings.Contains(f.Tag.Get("json"), ",string") && jgen.StringOptionOnUnmarshaler(f.Type) {
+				return true
+			}
+			if hasStringOnUnmarshaler(f.Type, seen) {
+				return true
+			}
+		}
+	}
+	return false
+}
+
 // hasStringOnNumber: a json.Number field carrying the ",string" option.
 func hasStringOnNumber(t reflect.Type, seen map[reflect.Type]bool) bool {
 	if seen[t] {
@@ -181,6 +208,9 @@ func knownClass(c Case, typ reflect.Type, f *evid.Failure, inf info) string {
 	}
 	if hasStringOnNumber(typ, map[reflect.Type]bool{}) {
 		cands = append(cands, clsStrNumber)
+	}
+	if hasStringOnUnmarshaler(typ, map[reflect.Type]bool{}) {
+		cands = append(cands, clsStrUnmarsh)
 	}
 	if hasFoldName(typ, map[reflect.Type]bool{}) || jgen.HasFoldRune(string(doc)) || bytes.Contains(doc, []byte(`\u212a`)) || bytes.Contains(doc, []byte(`\u017f`)) {
 		cands = append(cands, clsUniFold)
@@ -237,6 +267,29 @@ func one(td jgen.TypeDesc, init *jgen.Recipe, docs ...string) *evid.Failure {
 }
 
 var classes = []evid.Class{
+	{Name: clsStrUnmarsh, Witness: func() *evid.Failure {
+		// struct{B ByteUV `json:",string"`} (uint8 kind, value-receiver UnmarshalJSON that accepts anything):
+		// encoding/json hands the text inside the quotes to UnmarshalJSON as it is (`0\n`, ` "true"`), the
+		// library requires it to be one JSON value first
+		tg := ",string"
+		td := jgen.TypeDesc{K: "struct", Fields: []jgen.FieldDesc{{Name: "B", Tag: &tg, T: jgen.TypeDesc{K: "@ByteUV"}}}}
+		if f := one(td, nil, `{"B":"0\n"}`, `{"B":" \"true\""}`, `{"B":"x"}`, `{"B":"\"ERR\""}`, `{"B":5}`, `{"B":""}`); f != nil {
+			return f
+		}
+		// UnmarshalText wants a JSON string inside the quotes, a quoted null is null (it clears a pointer),
+		// any other text starting with n is refused
+		ut, pt := jgen.TypeDesc{K: "@ByteUT"}, jgen.TypeDesc{K: "@ByteUP"}
+		td = jgen.TypeDesc{K: "struct", Fields: []jgen.FieldDesc{{Name: "T", Tag: &tg, T: ut}, {Name: "P", Tag: &tg, T: jgen.TypeDesc{K: "ptr", Elem: &ut}}, {Name: "J", Tag: &tg, T: jgen.TypeDesc{K: "ptr", Elem: &pt}}}}
+		if f := one(td, nil, `{"T":"null","P":"\"t7\""}`, `{"P":"null","J":"null"}`, `{"T":"\"t5\"","J":"b9"}`, `{"T":"\"\\u0074\\u0035\""}`, `{"T":"t5"}`); f != nil {
+			return f
+		}
+		for _, doc := range []string{`{"P":"nope"}`, `{"J":"12 "}`, `{"B":5}`, `{"T":"\"t5"}`, `{"J":"7","P":"\"7\"","T":"\"t1\""}`} {
+			if f := one(td, nil, doc); f != nil {
+				return f
+			}
+		}
+		return nil
+	}},
 	{Name: clsStrNumber, Witness: func() *evid.Failure {
 		// struct{N json.Number `json:",string"`}: encoding/json stores the quoted text without
 		// validating it ("-0 " -> Number("-0 ")), the library parses it as a number and rejects / trims it
